@@ -8,12 +8,13 @@
      trusted / untrusted / local entry points   internal/handlers/transaction.go, untrusted_transaction.go
    Executable definitions only.  Relevance (the subscription filter, C08) is a boolean carried by
    each transaction; a transaction body is the list of outpoints it spends; outpoint o is output
-   (o mod 10) of transaction (o / 10); every universe transaction has NOUTS outputs and output k of
+   (o mod 10) of transaction (o / 10); universe transaction p has (nouts p) outputs (3, or 5 when p mod 4 = 3) and output k of
    transaction p carries the value 10 p + k, so that a spent output is identified by its outpoint id. *)
 From V.lib Require Import Base.
 From V.model Require Import MemPool.
 
 Definition NOUTS : Z := 3.
+Definition nouts (p : Z) : Z := if p mod 4 =? 3 then 5 else NOUTS.
 
 Record tstate := TState {
   s_safe : bool; s_unsafe : bool; s_cancel : bool;
@@ -71,7 +72,7 @@ Definition set_blocktxs (n : node) (b : gmap Z (list Z)) : node :=
 Definition spent_outputs (n : node) (body : list Z) : list Z :=
   map (fun o => if o <? 0 then 0 else
                 match states n !! (o / 10) with
-                | Some _ => if o mod 10 <? NOUTS then o else 0
+                | Some _ => if o mod 10 <? nouts (o / 10) then o else 0
                 | None => o
                 end) body.
 
